@@ -265,7 +265,7 @@ CPMC_FAMILY = ["cpmc", "cpmc_slow", "cpmc_nn", "cpmc_nn_slow", "continuous"]
 
 @st.composite
 def cpmc_case(draw, tier, shard=0, nshards=1):
-    combos = [(f, dt) for f in CPMC_FAMILY for dt in (0.005, 0.05, 0.5, 2.0)]
+    combos = [(f, dt) for f in CPMC_FAMILY for dt in (0.005, 0.05, 0.15, 0.5, 2.0)]
     combos = [x for i, x in enumerate(combos) if i % nshards == shard] or combos
     fam, dt = draw(st.sampled_from(combos))
     n = draw(st.sampled_from([3, 4]))
@@ -279,7 +279,10 @@ def cpmc_case(draw, tier, shard=0, nshards=1):
         t["poor"] = True
     steps = draw(st.integers(10, 40 if tier == "quick" else 150))
     return {"family": fam, "dt": dt, "n": n, "nelec": list(nelec), "trial": t, "U": draw(st.sampled_from([1.0, 4.0, 8.0, 12.0])), "U1": draw(st.sampled_from([0.5, 2.0])),
-            "steps": steps, "nw": 8, "seed": draw(st.integers(0, 2**31 - 1)), "faults": _fault_list(draw, steps, 8, n, maxn=2)}
+            "steps": steps, "nw": 8, "seed": draw(st.integers(0, 2**31 - 1)), "faults": _fault_list(draw, steps, 8, n, maxn=2),
+            # the Cholesky vectors only enter the energy estimate that anchors the population-control shift: either absent (the estimate is
+            # the kinetic energy alone and the whole population drifts) or the on-site interaction (walkers die one at a time)
+            "chol_mode": draw(st.sampled_from(["zero", "hubbard", "hubbard"])), "lattice": draw(st.sampled_from(["chain", "ring"]))}
 
 
 def cpmc_body(ctx, case):
@@ -287,6 +290,9 @@ def cpmc_body(ctx, case):
     t = case["trial"]
     dt, nw = float(case["dt"]), int(case["nw"])
     h1 = cp.lattice_h1("chain", n)
+    if case.get("lattice") == "ring" and n > 2:
+        h1 = np.array(h1)
+        h1[0, n - 1] = h1[n - 1, 0] = -1.0
     trial, wd, C = cp.build_cpmc_trial(n, nelec, t)
     adj = -h1
     neighbors = tuple((i, j) for i in range(n) for j in range(i + 1, n) if adj[i, j] != 0)
@@ -299,7 +305,10 @@ def cpmc_body(ctx, case):
     }[fam]()
     U = float(case["U"])
     H = hmod.hamiltonian(n)
-    hd = {"h0": 0.0, "h1": jnp.asarray(np.stack([h1, h1])), "chol": jnp.zeros((n, n * n)), "ene0": 0.0, "u": U, "u_1": float(case["U1"])}
+    chol = np.zeros((n, n, n))
+    if case.get("chol_mode") == "hubbard":
+        chol[np.arange(n), np.arange(n), np.arange(n)] = np.sqrt(U)
+    hd = {"h0": 0.0, "h1": jnp.asarray(np.stack([h1, h1])), "chol": jnp.asarray(chol.reshape(n, n * n)), "ene0": 0.0, "u": U, "u_1": float(case["U1"])}
     if fam == "continuous":
         hd["hs_constant"] = jnp.sqrt(U * dt) * jnp.ones(n)
     faults = case["faults"]
@@ -343,11 +352,11 @@ def cpmc_body(ctx, case):
             died_at = s
         if died_at is not None and np.any(w_new > 0):
             survivors_after = s - died_at
-    ctx.case(case, nontrivial=bool(faults) or (died_at is not None and survivors_after >= 5), classes=[tagp, f"dt={dt}", f"U={U}", "poor-trial" if t.get("poor") else "good-trial", f"faults={len(faults)}"] + (["a-walker-died-others-survived"] if died_at is not None and survivors_after >= 5 else []))
+    ctx.case(case, nontrivial=bool(faults) or (died_at is not None and survivors_after >= 5), classes=[tagp, f"dt={dt}", f"U={U}", f"chol={case.get('chol_mode', 'zero')}", f"lattice={case.get('lattice', 'chain')}", "poor-trial" if t.get("poor") else "good-trial", f"faults={len(faults)}"] + (["a-walker-died-others-survived"] if died_at is not None and survivors_after >= 5 else []))
 
 
 SUBCHECKS = [
     SubCheck("phaseless_step_histories", body=ph_body, strategy=ph_case, examples={"quick": 6, "thorough": 80}, shards={"quick": 8, "thorough": 16}, shrink=False),
     SubCheck("phaseless_blocks_with_injected_faults", body=blk_body, strategy=blk_case, examples={"quick": 6, "thorough": 60}, shards={"quick": 4, "thorough": 4}, shrink=False),
-    SubCheck("cpmc_step_histories", body=cpmc_body, strategy=cpmc_case, examples={"quick": 5, "thorough": 60}, shards={"quick": 10, "thorough": 20}, shrink=False),
+    SubCheck("cpmc_step_histories", body=cpmc_body, strategy=cpmc_case, examples={"quick": 6, "thorough": 60}, shards={"quick": 13, "thorough": 25}, shrink=False),
 ]
